@@ -24,7 +24,9 @@ class SchedConfig:
         self.reset()
 
     def reset(self, rng=None, p_switch=0.0, victim=None, trace=None, target_names=(), order=None,
-              record_memmap=False, io_mode=False, delay=None, count_io=False):
+              record_memmap=False, io_mode=False, delay=None, count_io=False, backend="loky"):
+        self.backend = backend        # "loky": workers are processes (private module state, pickled arguments);
+        #                               "threading": joblib's thread backend - workers share the process (module state, arguments, closures)
         self.rng = rng
         self.p_switch = p_switch
         self.victim = victim          # worker index with a low weight (starvation bias)
@@ -87,6 +89,18 @@ def _snapshot_import_state(modules):
 
 
 def _enter_worker(idx):
+    if SCHED.backend == "threading":
+        return []
+    return _enter_worker_proc(idx)
+
+
+def _leave_worker(idx, saved):
+    if SCHED.backend == "threading":
+        return
+    _leave_worker_proc(idx, saved)
+
+
+def _enter_worker_proc(idx):
     """Bind the watched modules' data globals to worker idx's own values (import-time state at first,
     then whatever the worker left there); returns what is needed to put the parent's bindings back."""
     st = _WORKER_STATE.setdefault(idx, {})
@@ -107,7 +121,7 @@ def _enter_worker(idx):
     return saved
 
 
-def _leave_worker(idx, saved):
+def _leave_worker_proc(idx, saved):
     st = _WORKER_STATE.setdefault(idx, {})
     for m, parent in saved:
         d = m.__dict__
@@ -286,9 +300,14 @@ class _Worker:
                 self.task = ti
                 SCHED.task_log.append((ti, self.idx))
                 SCHED.current = (self.idx, ti)
-                fn2 = _isolate_closure(fn)
-                a2 = tuple(_isolate_arg(x) for x in a)
-                k2 = {kk: _isolate_arg(v) for kk, v in k.items()}
+                if SCHED.backend == "threading":
+                    fn2 = fn
+                    a2 = tuple(RecordingMemmap(x) if (isinstance(x, np.memmap) and SCHED.record_memmap) else x for x in a)
+                    k2 = dict(k)
+                else:
+                    fn2 = _isolate_closure(fn)
+                    a2 = tuple(_isolate_arg(x) for x in a)
+                    k2 = {kk: _isolate_arg(v) for kk, v in k.items()}
                 code = fn2.__code__
                 self.state = "running"
 
